@@ -264,7 +264,7 @@ def r11_5(ctx):
         con = construct(f, f"order:{WORKER}")
         node = s.pick["node"]
         ctx.instance(f"{con}@pick{node.lineno}")
-        ok, why = order_provenance(ctx, s.ev["task<-worker"].func, s.cand_name, node, sorter, rule_attr)
+        ok, why = order_provenance(ctx, s.pick.get("func") or s.ev["task<-worker"].func, s.cand_name, node, sorter, rule_attr)
         if ok and s.pick["index"] != 0:
             ok, why = False, f"the worker is picked as `{s.pick['text']}`, not the first of the ordered candidates"
         if not ok:
